@@ -126,6 +126,17 @@ class C04(ProgramProperty):
                 steps += [q(0, "records"), {"op": "fresh", "dst": 5, "src": 0, "extra": [extra]},
                           {"op": "fresh", "dst": 6, "src": 0, "extra": []}, q(6, "records")]
                 kinds = kinds + ["history:merge-then-reuse-records"]
+        # history stream 2: a restriction of the converter lives on and legally acquires, by merge, a name that belongs
+        # to a record of the parent outside the restriction; the parent (a strict converter) must still be one-owner
+        # unique and its records must still be accepted by the strict constructor
+        elif not kinds and len(recs) >= 2 and rng.random() < 0.5:
+            t, o = rng.sample(recs, 2)
+            ext = {"ps": [o["p"]], "us": []} if rng.random() < 0.5 else {"ps": [], "us": [o["u"]]}
+            steps += [{"op": "sub", "dst": 7, "src": 0, "prefixes": [t["p"]]},
+                      {"op": "add_prefix", "c": 7, "p": t["p"], "u": t["u"], "merge": True, **ext},
+                      q(7, "records"), q(0, "records"), q(0, "get_prefixes", s=True), q(0, "get_uri_prefixes", s=True),
+                      {"op": "fresh", "dst": 8, "src": 0, "extra": []}, q(8, "records")]
+            kinds = kinds + ["history:merge-into-subconverter"]
         nontrivial = any("synonym" in k for k in kinds) or len({k.split(":")[1] for k in kinds if k.startswith("clash")}) == 2
         return {"steps": steps, "nontrivial": nontrivial or (not kinds and len(recs) >= 4),
                 "tags": (kinds if any(k.startswith("clash") or k == "self-synonym" for k in kinds)
